@@ -482,9 +482,16 @@ def _validate_seq(pg, sc, plan, rule, seq, cr):
                 if uf.find(env[n]) != uf.find(bid):
                     raise Mismatch('expression `%s` refers to a different binding of `%s`' % (expr_text(cr, e), n))
 
-    def match_expr(e, txt, what):
-        got = expr_text(cr, unclone(e))
-        if got is None or norm(got) != norm(txt):
+    def match_expr(e, txt, what, key=False):
+        # lookup keys are wrapped into `.clone()` by the generator: compare modulo clones there; everywhere else literally
+        if key:
+            got = expr_text(cr, unclone(e))
+            want = re.sub(r'(\.clone\(\))+$', '', norm(txt))
+            gotn = re.sub(r'(\.clone\(\))+$', '', norm(got)) if got is not None else None
+        else:
+            got = expr_text(cr, strip(e))
+            want, gotn = norm(txt), (norm(got) if got is not None else None)
+        if gotn is None or gotn != want:
             raise Mismatch('%s is `%s`, the rule says `%s`' % (what, got, txt))
         check_refs(e)
 
@@ -531,7 +538,7 @@ def _validate_seq(pg, sc, plan, rule, seq, cr):
             elif 'c' in a or 'e' in a:
                 txt = a.get('c') or a.get('e')
                 if t[0] == 'key' and t[1] == 'expr':
-                    match_expr(t[4], txt, '%s column %d' % (what, col))
+                    match_expr(t[4], txt, '%s column %d' % (what, col), key=True)
                 elif t[0] == 'key' and t[1] == 'local':
                     raise Mismatch('%s: column %d should be `%s` but is keyed by variable `%s`' % (what, col, txt, t[3]))
                 else:
@@ -569,7 +576,7 @@ def _validate_seq(pg, sc, plan, rule, seq, cr):
                     use_var(hit[1], rl['id'])
                     uf.union(hit[2], rl['id'])
                 else:
-                    match_expr(r, hit[1], '%s column %d (tested by equality)' % (what, hit[3]))
+                    match_expr(r, hit[1], '%s column %d (tested by equality)' % (what, hit[3]), key=True)
                 pending.remove(hit)
             elif nxt['t'] == 'iflet':
                 src = local_of(nxt['e'])
@@ -639,7 +646,7 @@ def _validate_seq(pg, sc, plan, rule, seq, cr):
                         raise Mismatch('aggregation: column %d should be variable `%s`' % (col, a['v']))
                     use_var(a['v'], t[2])
                 else:
-                    match_expr(t[4], a.get('c') or a.get('e'), 'aggregation column %d' % col)
+                    match_expr(t[4], a.get('c') or a.get('e'), 'aggregation column %d' % col, key=True)
             got_bound = [n for n, _ in it['bound']]
             if got_bound != bound_names:
                 raise Mismatch('aggregator receives the columns %s, the rule says %s (order matters)' % (got_bound, bound_names))
@@ -659,7 +666,12 @@ def _validate_seq(pg, sc, plan, rule, seq, cr):
                 f = strip(fn['f']) if fn.get('k') == 'call' else fn
                 got = expr_text(cr, f)
                 want = sp['agg']
-                if got is None or norm(got) != norm(want):
+                def unparen(x):
+                    x = norm(x)
+                    while x.startswith('(') and x.endswith(')'):
+                        x = x[1:-1]
+                    return x
+                if got is None or unparen(got) != unparen(want):
                     # parameterised aggregators: `percentile(p)(args)` - compare the callee expression text
                     c = callee(fn)
                     last = cname(c).split('::')[-1] if c else ''
